@@ -37,9 +37,30 @@ pub enum Raw {
 /// normalised answer: truth values, and for undecided entries / handles the function they denote at the time
 #[derive(Clone, Debug, PartialEq, Eq, PartialOrd, Ord)]
 pub enum Norm {
-    Models(Vec<Vec<(u8, TT)>>),
+    Models(Vec<Vec<(u8, u64)>>),
     Counts(Vec<(usize, usize)>),
-    Funcs(Vec<TT>),
+    Funcs(Vec<u64>),
+}
+
+/// structural signatures of all handles: in a reduced ordered table two handles denote the same function iff their
+/// diagrams are isomorphic, so the hash of (variable, signature of lo, signature of hi) identifies the function -
+/// independently of the handle numbers of the object it lives in (used when there are too many variables for tables)
+pub fn signatures(nodes: &[adf_bdd::datatypes::BddNode]) -> Vec<u64> {
+    let mut sig: Vec<u64> = Vec::with_capacity(nodes.len());
+    for (i, nd) in nodes.iter().enumerate() {
+        if i < 2 {
+            sig.push(i as u64);
+        } else {
+            let (lo, hi) = (nd.lo().value(), nd.hi().value());
+            let (sl, sh) = (sig.get(lo).copied().unwrap_or(u64::MAX), sig.get(hi).copied().unwrap_or(u64::MAX));
+            let mut bytes = Vec::with_capacity(24);
+            bytes.extend_from_slice(&(nd.var().value() as u64).to_le_bytes());
+            bytes.extend_from_slice(&sl.to_le_bytes());
+            bytes.extend_from_slice(&sh.to_le_bytes());
+            sig.push(crate::report::hash64(&bytes) | 2);
+        }
+    }
+    sig
 }
 
 pub fn exec(adf: &mut Adf, call: usize) -> Raw {
@@ -105,9 +126,10 @@ pub fn exec(adf: &mut Adf, call: usize) -> Raw {
 
 /// reads a raw answer against the object's current node table
 pub fn normalise(adf: &Adf, raw: &Raw, n: usize) -> Result<Norm, String> {
-    let tts = all_tts(&adf.bdd.nodes, n)?;
-    let get = |t: &Term| -> Result<TT, String> {
-        tts.get(t.value()).copied().ok_or_else(|| format!("handle {} outside the node table", t))
+    // truth tables for <= 5 statements, structural signatures beyond
+    let ids: Vec<u64> = if n <= 5 { all_tts(&adf.bdd.nodes, n)?.into_iter().map(|t| t as u64).collect() } else { signatures(&adf.bdd.nodes) };
+    let get = |t: &Term| -> Result<u64, String> {
+        ids.get(t.value()).copied().ok_or_else(|| format!("handle {} outside the node table", t))
     };
     Ok(match raw {
         Raw::Models(ms) => {
